@@ -204,6 +204,10 @@ def check_case(rec, case):
 
     def G():
         return adapt.build_cfg(RG)
+    with common.captured():
+        o = call(ca.cfg_to_chomsky, G(), True)          # verbose=True: the phases are printed, the result is judged the same way
+    if not o.ok:
+        report_failure(rec, o, 'cfg_to_chomsky', grammar=cf.show(RG), verbose=True)
     o = call(ca.cfg_to_chomsky, G())
     if not o.ok:
         report_failure(rec, o, 'cfg_to_chomsky', grammar=cf.show(RG))
@@ -257,6 +261,7 @@ def gen_cases(rec, rng, tier):
         yield {'cls': 'random_grammar', 'ref': RG, 'n': nn}
         yield {'cls': 'random_grammar_renamed', 'ref': cfgg.random_var_renaming(rng, RG), 'n': nn, 'hint': rng.choice('SAXQ'), 'start_variable': rng.choice('TSAZ')}
         yield {'cls': 'composite_start_name', 'ref': cfgg.composite_start_name(rng, RG), 'n': min(nn, 4)}
+        yield {'cls': 'empty_string_variable_name', 'ref': cfgg.rename_vars(RG, {(RG[3] if rng.random() < 0.6 else rng.choice(RG[0])): ''}), 'n': min(nn, 4)}
         yield {'cls': 'digit_or_punctuation_terminals', 'ref': cfgg.terminal_renaming(rng, RG), 'n': nn}
         yield {'cls': 'multichar_variable_names', 'ref': cfgg.multichar_renaming(rng, RG), 'n': min(nn, 4), 'hint': rng.choice(['S', 'AB', 'X']), 'start_variable': rng.choice(['T', 'AB'])}
         yield {'cls': 'ambiguous_long_rule_tails', 'ref': cfgg.ambiguous_long_rules(rng), 'n': 4}
